@@ -665,8 +665,38 @@ Definition transform (v : Z) (q : query) (x : list creq * list psum) : cand_resu
                             (if 29 <=? v then ps_parent s else None)
                             (if 29 <=? v then ps_root s else -1)) (snd x)).
 
-(* AllocationCandidates._get_by_requests (without limit_results) *)
-Definition get_by_requests (d : db) (v : Z) (q : query) : cand_result :=
+Definition res_eqb (a b : Z * Z * Z) : bool :=
+  (fst (fst a) =? fst (fst b)) && (snd (fst a) =? snd (fst b)) && (snd a =? snd b).
+Definition psum_eqb (a b : psum) : bool :=
+  (ps_rp a =? ps_rp b)
+  && forallb (fun x => existsb (res_eqb x) (ps_res b)) (ps_res a) && forallb (fun x => existsb (res_eqb x) (ps_res a)) (ps_res b)
+  && set_eqZ (ps_traits a) (ps_traits b) && oeqb (ps_parent a) (ps_parent b) && (ps_root a =? ps_root b).
+Definition set_eq_by {A} (eqb : A -> A -> bool) (a b : list A) : bool :=
+  (lenZ a =? lenZ b) && forallb (fun x => existsb (eqb x) b) a && forallb (fun x => existsb (eqb x) a) b.
+(* equality of responses as sets *)
+Definition result_same (a b : cand_result) : bool :=
+  match a, b with
+  | COk x s, COk x' s' => set_eq_by same_creq x x' && set_eq_by psum_eqb s s'
+  | _, _ => false
+  end.
+
+(* the members of a group's candidate list that have an equal twin under another anchor (hazard 1) *)
+Definition drop_ambiguous (l : list creq) : list creq :=
+  filter (fun a => negb (existsb (fun b => same_creq a b && negb (cr_anchor a =? cr_anchor b)) l)) l.
+
+(* the tail of _get_by_requests after the groups loop *)
+Definition finish_requests (d : db) (v : Z) (q : query) (rw : rw_ctx) (built : list Z)
+           (cands : list (rgroup * list creq)) : cand_result :=
+  let combos := merge_combos d rw cands in
+  if arr_mutation_hazard (rw_policy rw) combos then COrderDependent 2 else
+  transform v q (exclude_nested_providers d rw (merge_candidates d built combos)).
+
+(* AllocationCandidates._get_by_requests (without limit_results).
+   Hazard 1: when some group's candidates are anchor-ambiguous and there are several groups, Python keeps ONE
+   arbitrary member of every class of equal requests. Every such choice lies between dropping the whole class
+   and keeping all of it (all later steps are monotone), so the answer is determined iff these two coincide;
+   otherwise COrderDependent 1. keep_all_anchors = true returns the upper bound unconditionally. *)
+Definition get_by_requests_gen (keep_all_anchors : bool) (d : db) (v : Z) (q : query) : cand_result :=
   match process_anchor_traits d q with
   | RBad => CErr 400
   | REmpty => COk [] []
@@ -678,34 +708,44 @@ Definition get_by_requests (d : db) (v : Z) (q : query) : cand_result :=
       | REmpty => COk [] []
       | RKeyError => CKeyError
       | RVal (cands, st) =>
-          if (2 <=? lenZ cands) && existsb (fun gl => anchor_ambiguous (snd gl)) cands then COrderDependent 1 else
-          let combos := merge_combos d rw cands in
-          if arr_mutation_hazard (rw_policy rw) combos then COrderDependent 2 else
-          transform v q (exclude_nested_providers d rw (merge_candidates d (st_built st) combos))
+          let upper := finish_requests d v q rw (st_built st) cands in
+          if keep_all_anchors || negb ((2 <=? lenZ cands) && existsb (fun gl => anchor_ambiguous (snd gl)) cands)
+          then upper else
+          let lower := finish_requests d v q rw (st_built st) (map (fun gl => (fst gl, drop_ambiguous (snd gl))) cands) in
+          match upper with
+          | COrderDependent w => COrderDependent w
+          | _ => if result_same lower upper then upper else COrderDependent 1
+          end
       end
   end.
+Definition get_by_requests := get_by_requests_gen false.
 
 (* handlers/allocation_candidate.py:list_allocation_candidates on a parsed query (limit: see limit_results) *)
-Definition candidates (v : Z) (q : query) (d : db) : cand_result :=
+Definition candidates_gen (keep_all_anchors : bool) (v : Z) (q : query) (d : db) : cand_result :=
   if v <? 10 then CErr 404 else
   if negb (query_wf v q) then CErr 400 else
-  get_by_requests d v q.
+  get_by_requests_gen keep_all_anchors d v q.
+Definition candidates := candidates_gen false.
+Definition candidates_all_anchors := candidates_gen true.
 
 (* ================================================================ comparison with observed responses *)
-Definition res_eqb (a b : Z * Z * Z) : bool :=
-  (fst (fst a) =? fst (fst b)) && (snd (fst a) =? snd (fst b)) && (snd a =? snd b).
-Definition psum_eqb (a b : psum) : bool :=
-  (ps_rp a =? ps_rp b)
-  && forallb (fun x => existsb (res_eqb x) (ps_res b)) (ps_res a) && forallb (fun x => existsb (res_eqb x) (ps_res a)) (ps_res b)
-  && set_eqZ (ps_traits a) (ps_traits b) && oeqb (ps_parent a) (ps_parent b) && (ps_root a =? ps_root b).
-Definition set_eq_by {A} (eqb : A -> A -> bool) (a b : list A) : bool :=
-  (lenZ a =? lenZ b) && forallb (fun x => existsb (eqb x) b) a && forallb (fun x => existsb (eqb x) a) b.
-(* 0 = agree, 1 = disagree, 2 / 3 = the model says "order dependent" (kind 1 / 2) and the service answered 200 *)
-Definition cand_check (model observed : cand_result) : Z :=
+Definition subset_by {A} (eqb : A -> A -> bool) (a b : list A) : bool := forallb (fun x => existsb (eqb x) b) a.
+(* 0 = agree, 1 = disagree;
+   the model says "order dependent" and the service answered 200:
+   2 = kind 1, observed = the all-anchors result; 4 = kind 1, observed is a strict subset of it (candidates lost);
+   3 = kind 2 (amounts unspecified) *)
+Definition cand_check (model upper observed : cand_result) : Z :=
   match model, observed with
   | CErr a, CErr b => if a =? b then 0 else 1
   | CKeyError, CKeyError => 0
-  | COrderDependent w, COk _ _ => 1 + w
+  | COrderDependent 1, COk a' s' =>
+      match upper with
+      | COk a s => if set_eq_by same_creq a a' && set_eq_by psum_eqb s s' then 2
+                   else if subset_by same_creq a' a && subset_by psum_eqb s' s then 4 else 1
+      | COrderDependent _ => 3
+      | _ => 1
+      end
+  | COrderDependent _, COk _ _ => 3
   | COk a s, COk a' s' => if set_eq_by same_creq a a' && set_eq_by psum_eqb s s' then 0 else 1
   | _, _ => 1
   end.
